@@ -70,7 +70,16 @@ INVARIANTS RoutedByOwnName OwnStream %s Delivered %s
 
 
 def go_sessions(ctx, cases, what, timeout=600):
-    r = ctx.gotest("proxy/tcp", ["proxy/tcp/c09_test.go", "proxy/tcp/c09sess_test.go"], "^TestVerifC09Sessions$", env={"VERIF_IN": cases}, timeout=timeout)
+    # built with the race detector: connections through one proxy instance must not share state; a report whose
+    # frames lie in fabio's own files (not the harness) is a cross-connection effect and a verdict
+    r = ctx.gotest("proxy/tcp", ["proxy/tcp/c09_test.go", "proxy/tcp/c09sess_test.go"], "^TestVerifC09Sessions$", env={"VERIF_IN": cases}, timeout=timeout, race=True)
+    if "WARNING: DATA RACE" in r.out:
+        rep = r.out.split("WARNING: DATA RACE", 1)[1][:4000]
+        own = [ln.strip() for ln in rep.splitlines() if ".go:" in ln and "/proxy/tcp/" in ln and "zz_verif" not in ln and "/internal/verifx/" not in ln]
+        if own:
+            ctx.violation({"sub": "sessions", "clause": "data-race", "where": own[0].split()[0]},
+                          "connections served by one tcp proxy instance share state without synchronisation (race detector):\n" + rep[:2500],
+                          replay={"sub": "sessions-race", "case": None})
     return r if ctx.need_go_ok(r, what) else None
 
 
